@@ -382,6 +382,33 @@ int main(int argc, char** argv) {
     p.decode = decode;
     p.max_size = 40;
     vf::run(p);
+
+    // one instruction on one generated full-width register state (same oracle): state pokes are boundary-biased (shift counts at
+    // +-40, accumulators at the 32/40-bit edges, pc at the ends of the program space), first words are stratified over the table
+    vf::Property<Case> q;
+    q.name = "single_step";
+    q.gen = [] {
+        using namespace rc;
+        return gen::map(gen::tuple(gen::resize(100, gen::arbitrary<uint64_t>()), gen::resize(100, gen::arbitrary<uint64_t>()), vf::range<unsigned>(0, 12)),
+                        [](std::tuple<uint64_t, uint64_t, unsigned> t) {
+                            Case c(3);
+                            c[0].kind = Poke;
+                            c[0].a = std::get<0>(t);
+                            c[0].b = 0x10; // program page 0
+                            c[0].c = std::get<2>(t);
+                            c[1].kind = Code;
+                            c[1].a = std::get<1>(t);
+                            c[1].b = 1; // the instruction and a following word
+                            c[2].kind = Run;
+                            c[2].a = 0; // one cycle
+                            return c;
+                        });
+    };
+    q.check = check;
+    q.encode = encode;
+    q.decode = decode;
+    q.share = 10.0;
+    vf::run(q);
     return vf::finish();
 }
 #endif
